@@ -174,9 +174,9 @@ def successors (b : Block) (i : Instr) (s : Sigma) : Option (List (Nat × Sigma)
     if e.throws then
       match findHandler b.handlers i.pc with
       | some h =>
-        -- `handle_exception_at` truncates the environment chain to env_fp + h.envCount: it must not be shorter
-        if s.env < h.envCount then none
-        else some (ord ++ [(h.target, { arg := 0, env := h.envCount, bind := 0, disp := s'.disp })])
+        -- `handle_exception_at` truncates the environment chain to env_fp + h.envCount (a shorter chain stays as it is:
+        -- `handlerDepthOk` below is the check that this never happens), the value stack and the binding references
+        some (ord ++ [(h.target, { arg := 0, env := min s.env h.envCount, bind := 0, disp := s'.disp })])
       | none => some ord
     else some ord
 
@@ -245,8 +245,20 @@ def functionalDisp (annot : Annot) : Bool :=
 def envBindFunctional (annot : Annot) : Bool :=
   annot.all (fun p => annot.all (fun q => p.1 != q.1 || (p.2.env == q.2.env && p.2.bind == q.2.bind)))
 
+/-- what the handler assumes: an instruction that can throw inside a handler's range runs with at least the
+    environment depth the handler restores -/
+def handlerDepthOk (b : Block) (p : Nat × Sigma) : Bool :=
+  match instrAt b p.1 with
+  | none => true
+  | some i =>
+    if (effect i).throws then
+      match findHandler b.handlers i.pc with
+      | some h => h.envCount ≤ p.2.env
+      | none => true
+    else true
+
 /-- THE CHECK (the property as stated) -/
-def check (b : Block) (annot : Annot) : Bool := checkRel b annot && functional annot
+def check (b : Block) (annot : Annot) : Bool := checkRel b annot && functional annot && annot.all (handlerDepthOk b)
 
 /-- the check the tree passes everywhere: closure, env/bind agreement at every merge, value-stack depth
     determined by address and dispatch registers -/
